@@ -42,6 +42,7 @@ def cases(tier, seed):
     # the common index also sits on a numerator and on a denominator object
     yield {"u": [["p", "q"], ["p", "r"]], "x": [["p", "s"], ["p"]], "xe": [1, -1], "target": "qrs", "deltas": False}
     yield {"u": [["q", "p"], ["r", "p"]], "x": [["p", "s"], ["p", "s"]], "xe": [1, -1], "target": "qr", "deltas": True}
+    yield {"u": [["p", "q"], ["p", "r"]], "x": [["q"], ["r"]], "target": "qr", "deltas": True, "second_term": True}
     for _ in range(150 if tier == "quick" else 3000):
         nu = rng.randint(2, 4)
         us = [rng.sample(NAMES[:5], 2) for _ in range(nu)]
@@ -49,6 +50,7 @@ def cases(tier, seed):
         used = sorted({n for t in us + xs for n in t})
         tgt = "".join(rng.sample(used, rng.randint(0, min(3, len(used))))) if rng.random() < 0.7 else None
         case = {"u": us, "x": xs, "target": tgt, "deltas": rng.random() < 0.5}
+        case["second_term"] = rng.random() < 0.4
         if xs and rng.random() < 0.4:
             # remainder objects in the denominator / with powers
             case["xe"] = [rng.choice([1, -1, -1, 2]) for _ in xs]
@@ -66,6 +68,9 @@ def check(case):
         targets = list(e.terms[0].target)
     else:
         targets = [idx[n] for n in dict.fromkeys(case["target"])]
+        if case.get("second_term") and targets:
+            # a second term over the target indices: the expression is a sum
+            term = term + NonSymmetricTensor("Z", tuple(targets))
         e = Expr(term, target_idx=targets)
     res = simplify_unitary(e, "U", evaluate_deltas=case["deltas"])
     if case["deltas"]:
@@ -97,6 +102,6 @@ CHECKS = {
     "simplify_unitary.value": {
         "function": "adcgen.simplify:simplify_unitary.simplify_term_unitary",
         "cases": cases, "check": check,
-        "bound": "products of 2-4 unitary tensors (repeats = powers) with <= 2 remainder tensors (exponents 1, 2, -1) over 6 general index names, Einstein or explicit targets, evaluate_deltas on/off; rational orthogonal 4x4 matrix, all target assignments",
+        "bound": "products of 2-4 unitary tensors (repeats = powers) with <= 2 remainder tensors (exponents 1, 2, -1) over 6 general index names, Einstein or explicit targets, optionally a second term (sum), evaluate_deltas on/off; rational orthogonal 4x4 matrix, all target assignments",
     },
 }
